@@ -225,6 +225,9 @@ func (n *FlattenNode) flatten(points []edge.FieldsTagsTimeGetter) (models.Fields
 	defer n.bufPool.Put(fieldPrefix)
 POINTS:
 	for _, p := range points {
+		// Start every point with an empty prefix: a point that is skipped because of a
+		// missing tag leaves its partial prefix in the (pooled) buffer.
+		fieldPrefix.Reset()
 		tags := p.Tags()
 		for i, tag := range n.f.Dimensions {
 			if v, ok := tags[tag]; ok {
